@@ -134,6 +134,77 @@ def mk_variant(adt, variant, fields):
 TABLES = {}
 
 
+class PyIter:
+    """an iterator value of std (slice iterators, ranges and the adaptors over them): `step(it)` yields the next item or raises
+    StopIteration.  Adaptors are modelled by their documented behaviour; closures are applied through Interp.apply_callable."""
+
+    def __init__(self, kind, parts):
+        self.kind, self.parts = kind, parts
+
+    def __repr__(self):
+        return "<iter %s>" % self.kind
+
+    def step(self, it, fr, t, depth):
+        k, p = self.kind, self.parts
+        if k == "slice":            # [array Ref, start, end, pos, reversed]
+            ref, start, end = p[0], p[1], p[2]
+            if p[3] >= end - start:
+                raise StopIteration
+            i = (end - 1 - p[3]) if p[4] else (start + p[3])
+            p[3] += 1
+            return Ref(ref.frame, ref.local, list(ref.proj) + [{"const_index": i}])
+        if k == "values":           # [list, pos]
+            if p[1] >= len(p[0]):
+                raise StopIteration
+            p[1] += 1
+            return p[0][p[1] - 1]
+        if k == "range":            # [cur AI, end AI | None, ty]
+            cur, end = p[0], p[1]
+            if end is not None:
+                lt = it.compare("Lt", cur, end).const()
+                if lt is None:
+                    raise Undecided("range iteration bound")
+                if not lt:
+                    raise StopIteration
+            p[0] = it.arith("Add", cur, AI(cur.ty, 1, 1), cur.ty)
+            return cur
+        if k == "enumerate":        # [inner, count]
+            x = p[0].step(it, fr, t, depth)
+            p[1] += 1
+            return Agg("tuple", None, None, None, [AI("usize", p[1] - 1, p[1] - 1), x])
+        if k == "zip":
+            a = p[0].step(it, fr, t, depth)
+            b = p[1].step(it, fr, t, depth)
+            return Agg("tuple", None, None, None, [a, b])
+        if k == "map":
+            x = p[0].step(it, fr, t, depth)
+            return it.apply_callable(p[1], [x], fr, t, depth)
+        if k == "chain":
+            if not p[2]:
+                try:
+                    return p[0].step(it, fr, t, depth)
+                except StopIteration:
+                    p[2] = True
+            return p[1].step(it, fr, t, depth)
+        if k == "copied":
+            x = p[0].step(it, fr, t, depth)
+            for _ in range(4):
+                if isinstance(x, Ref):
+                    x = it.project(x.frame, x.frame.locals.get(x.local), x.proj)
+            return x
+        if k == "take":
+            if p[1] <= 0:
+                raise StopIteration
+            p[1] -= 1
+            return p[0].step(it, fr, t, depth)
+        if k == "once":
+            if p[1]:
+                raise StopIteration
+            p[1] = True
+            return p[0]
+        raise Unsupported("iterator %s" % k)
+
+
 class Frame:
     def __init__(self, body, env):
         self.body = body
@@ -903,6 +974,14 @@ class Interp:
         name = f["fn"]
         fargs = [self.subst(fr, a) for a in f.get("fn_args", [])]
         args = [self.operand(fr, a) for a in t["args"]]
+        res = (f.get("resolved") or {}).get("fn")
+        if res and res != name and name not in self.handlers and not self.F.by_path.get(name) and len(self.F.by_path.get(res, [])) == 1 \
+                and self.F.by_path[res][0].get("blocks") and name.startswith(("std::ops::", "std::iter::Sum", "std::default::Default", "std::clone::Clone", "std::cmp::")):
+            # an operator / std trait implemented in the crate for a crate type: the call is a call of that implementation
+            rb = self.F.by_path[res][0]
+            rf = (f.get("resolved") or {}).get("fn_args")
+            env = dict(zip(rb.get("generics") or [], [self.subst(fr, a) for a in rf])) if rf is not None and len(rf) == len(rb.get("generics") or []) else dict(fr.env)
+            return self.call_body(rb, args, env, depth + 1)
         return self.call_named(name, fargs, args, fr, t, depth, f.get("fn_crate"))
 
     def call_named(self, name, fargs, args, fr, t, depth, crate):
@@ -974,6 +1053,121 @@ class Interp:
                 env = dict(zip(body["generics"], fargs))
                 return self.call_body(body, args, env, depth + 1)
         raise Unsupported("call of %s" % name)
+
+    def as_iter(self, v):
+        """the PyIter denoted by an iterator / iterable value, or None"""
+        x = v
+        for _ in range(3):
+            if isinstance(x, Ref):
+                y = self.project(x.frame, x.frame.locals.get(x.local), x.proj)
+                if isinstance(y, PyIter):
+                    return y
+                if isinstance(y, Agg) and y.kind == "array":
+                    return PyIter("slice", [x, 0, len(y.fields), 0, False])
+                x = y
+        if isinstance(x, PyIter):
+            return x
+        if isinstance(x, Agg) and x.kind == "iter" and x.name == "array" and isinstance(x.fields[1], AI) and x.fields[1].const() is not None:
+            return PyIter("values", [list(x.fields[0].fields), x.fields[1].const()])
+        if isinstance(x, Agg) and x.kind == "iter" and x.name == "slice" and isinstance(x.fields[1], AI) and x.fields[1].const() is not None:
+            sl = x.fields[0]
+            return PyIter("slice", [sl.ref, sl.start, sl.end, x.fields[1].const(), False])
+        if isinstance(x, Slice):
+            return PyIter("slice", [x.ref, x.start, x.end, 0, False])
+        if isinstance(x, Agg) and x.kind == "array":
+            return PyIter("values", [list(x.fields), 0])
+        if isinstance(x, Agg) and x.name and x.name.endswith("ops::Range") and len(x.fields) == 2:
+            return PyIter("range", [x.fields[0], x.fields[1]])
+        if isinstance(x, Agg) and x.name and x.name.endswith("ops::RangeFrom"):
+            return PyIter("range", [x.fields[0], None])
+        return None
+
+    def iter_call(self, name, args, fargs, fr, t):
+        depth = 1
+        last = name.split("::")[-1]
+        if name in ("core::slice::<impl [T]>::iter", "core::slice::<impl [T]>::iter_mut") or re.match(r"core::array::<impl \[T; N\]>::(iter|iter_mut)$", name):
+            it_ = self.as_iter(args[0])
+            if it_ is not None and it_.kind == "slice":
+                return it_
+            return NotImplemented
+        if name.startswith("std::iter::Iterator::") or name in ("std::iter::IntoIterator::into_iter", "std::iter::once", "std::iter::zip", "core::iter::zip"):
+            if name == "std::iter::once":
+                return PyIter("once", [args[0], False])
+            src = self.as_iter(args[0]) if args else None
+            if src is None:
+                return NotImplemented
+            if name == "std::iter::IntoIterator::into_iter":
+                # only the new iterator forms are taken over here; ranges and plain slices keep their existing representation
+                v0 = args[0]
+                if isinstance(v0, PyIter) or (isinstance(v0, Ref) and isinstance(self.project(v0.frame, v0.frame.locals.get(v0.local), v0.proj), PyIter)):
+                    return src
+                if isinstance(v0, Agg) and v0.name and v0.name.endswith("ops::RangeFrom"):
+                    return src
+                return NotImplemented
+            if last == "next":
+                if not isinstance(self.project(args[0].frame, args[0].frame.locals.get(args[0].local), args[0].proj) if isinstance(args[0], Ref) else args[0], PyIter):
+                    return NotImplemented
+                try:
+                    return mk_variant("std::option::Option", "Some", [src.step(self, fr, t, depth)])
+                except StopIteration:
+                    return mk_variant("std::option::Option", "None", [])
+            if last == "enumerate":
+                return PyIter("enumerate", [src, 0])
+            if last in ("zip",) and len(args) == 2:
+                other = self.as_iter(args[1])
+                if other is None:
+                    raise Unsupported("zip with %r" % (args[1],))
+                return PyIter("zip", [src, other])
+            if last == "map":
+                return PyIter("map", [src, args[1]])
+            if last == "chain":
+                other = self.as_iter(args[1])
+                if other is None:
+                    raise Unsupported("chain with %r" % (args[1],))
+                return PyIter("chain", [src, other, False])
+            if last in ("copied", "cloned"):
+                return PyIter("copied", [src])
+            if last == "rev" and src.kind == "slice":
+                src.parts[4] = not src.parts[4]
+                return src
+            if last == "take" and isinstance(args[1], AI) and args[1].const() is not None:
+                return PyIter("take", [src, args[1].const()])
+            if last == "by_ref":
+                return args[0]
+            if last == "for_each":
+                n = 0
+                while True:
+                    try:
+                        x = src.step(self, fr, t, depth)
+                    except StopIteration:
+                        return UNIT
+                    self.apply_callable(args[1], [x], fr, t, depth)
+                    n += 1
+                    if n > 100000:
+                        raise Unsupported("for_each over an unbounded iterator")
+            if last == "fold":
+                acc = args[1]
+                n = 0
+                while True:
+                    try:
+                        x = src.step(self, fr, t, depth)
+                    except StopIteration:
+                        return acc
+                    acc = self.apply_callable(args[2], [acc, x], fr, t, depth)
+                    n += 1
+                    if n > 100000:
+                        raise Unsupported("fold over an unbounded iterator")
+            if last == "count":
+                n = 0
+                while True:
+                    try:
+                        src.step(self, fr, t, depth)
+                    except StopIteration:
+                        return AI("usize", n, n)
+                    n += 1
+                    if n > 100000:
+                        raise Unsupported("count of an unbounded iterator")
+        return NotImplemented
 
     def is_opaque(self, a):
         if isinstance(a, Opaque):
@@ -1128,6 +1322,9 @@ class Interp:
                     raise Panic("slice index out of range")
                 return Slice(base.ref, base.start + lo.const(), base.start + hi.const())
             raise Unsupported("index of %r by %r" % (base, idx))
+        r = self.iter_call(name, args, fargs, fr, t)
+        if r is not NotImplemented:
+            return r
         if name == "std::iter::IntoIterator::into_iter":
             s = args[0]
             if isinstance(s, Slice):
